@@ -125,6 +125,16 @@ def decl_programs(draw, profile=None):
         tail.append("autoarr = 1.0")
         tail.append("y = y + autoarr(n + 1)")
         feats.add("automatic_array")
+    # ---- loops whose index is not an automatic local: a module variable,
+    # a saved local
+    if flip(1, 3):
+        spec.append("integer :: mli")
+        tail += ["do mli = 1, p1", "  k = k + mli", "end do"]
+        feats.add("module_var_loop_index")
+    if flip(1, 3):
+        ldecl.append("integer, save :: sli")
+        tail += ["do sli = 1, 2", "  k = k + sli", "end do"]
+        feats.add("saved_loop_index")
     # ---- a kind parameter that is LOCAL in the routine under test and
     # IMPORTED (same name) by a helper: inlining the helper has to rename
     # one of them, which re-orders the caller's symbol table
